@@ -494,6 +494,22 @@ def _changed(recs):
             if v.elems is not old[0] or v.shape != old[1]:
                 out.append("%s (array written in place)" % path)
             continue
+        if kind == "obj":
+            # filling an empty slot (an attribute that was absent or None) is how lazily computed values are kept on an
+            # object; whether such a value can go stale is the STATE rule's question (S2), not a change of the operand
+            oldd, curd = dict(old), dict(cur)
+            gone = [k for k in oldd if k not in curd]
+            if gone:
+                out.append("%s.%s (attribute deleted)" % (path, gone[0]))
+                continue
+            for k, b in cur:
+                if k not in oldd or oldd[k] is None:
+                    continue
+                a = oldd[k]
+                if a is not b and not _same_value(a, b):
+                    out.append("%s.%s (re-bound)" % (path, k))
+                    break
+            continue
         if len(cur) != len(old):
             out.append("%s (%d -> %d entries)" % (path, len(old), len(cur)))
             continue
